@@ -88,9 +88,15 @@ type gembed struct {
 	Ptr bool `json:"ptr,omitempty"`
 }
 
+type gfield struct {
+	Name string `json:"name"`
+	T    *gty   `json:"t"`
+}
+
 type gstruct struct {
 	Name    string   `json:"name"`
 	Embeds  []gembed `json:"embeds,omitempty"`
+	Fields  []gfield `json:"fields,omitempty"` // plain (non-embedded) fields
 	Methods []gmeth  `json:"methods,omitempty"`
 }
 
@@ -334,6 +340,9 @@ func sources(p *prog) map[string]string {
 			}
 			ab.WriteString("\t" + star + a.ty(e.T) + "\n")
 		}
+		for _, f := range s.Fields {
+			ab.WriteString("\t" + f.Name + " " + a.ty(f.T) + "\n")
+		}
 		ab.WriteString("}\n\n")
 		for _, m := range s.Methods {
 			fp, w := a, &ab
@@ -418,9 +427,10 @@ type OddI interface{ Odd(o *Odd) []Odd }
 // ---------------------------------------------------------------- go/types -> description
 
 type gtree struct {
-	Self *gty     `json:"self"`
-	Own  []gmeth  `json:"own"`
-	Emb  []*gtree `json:"emb,omitempty"`
+	Self   *gty     `json:"self"`
+	Own    []gmeth  `json:"own"`
+	Fields []string `json:"fields,omitempty"` // names of all struct fields (embedded ones included)
+	Emb    []*gtree `json:"emb,omitempty"`
 }
 
 func conv(t types.Type) *gty {
@@ -503,6 +513,9 @@ func buildTree(n *types.Named, notes map[string]bool, depth int) *gtree {
 	if st, ok := n.Underlying().(*types.Struct); ok && depth < 6 {
 		for i := 0; i < st.NumFields(); i++ {
 			f := st.Field(i)
+			if f.Name() != "_" {
+				tr.Fields = append(tr.Fields, f.Name()) // a field is a selector: it hides deeper methods
+			}
 			if !f.Embedded() {
 				continue
 			}
@@ -556,11 +569,19 @@ func galTy(t *gty) string {
 }
 
 func galMeth(m gmeth) string {
-	return "M " + gal.Str(m.Name) + " " + galPars(m.Ps) + " " + gal.Bool(m.Variadic) + " " + galPars(m.Rs)
+	return "M " + gal.Str(m.Name) + " " + galPars(m.Ps) + " " + gal.Bool(m.Variadic) + " " + galPars(m.Rs) + " false"
 }
 
+// galTree: the selectors of a node are its methods followed by its fields (m_field = true)
 func galTree(t *gtree) string {
-	return "Tr (" + galTy(t.Self) + ") " + gal.ListOf(t.Own, galMeth) + " " + gal.ListOf(t.Emb, galTree)
+	sel := make([]string, 0, len(t.Own)+len(t.Fields))
+	for _, m := range t.Own {
+		sel = append(sel, galMeth(m))
+	}
+	for _, f := range t.Fields {
+		sel = append(sel, "M "+gal.Str(f)+" [] false [] true")
+	}
+	return "Tr (" + galTy(t.Self) + ") " + gal.List(sel) + " " + gal.ListOf(t.Emb, galTree)
 }
 
 // ---------------------------------------------------------------- observation
@@ -892,6 +913,8 @@ func main() {
 		for i := 0; i < *n; i++ {
 			if i%3 == 2 {
 				progs = append(progs, embedNameProgram(r, fmt.Sprintf("s%d", i), "shapes", nil))
+			} else if i%3 == 1 {
+				progs = append(progs, fieldShadowProgram(r, fmt.Sprintf("s%d", i), "shapes"))
 			} else {
 				progs = append(progs, shapeProgram(r, fmt.Sprintf("s%d", i), "shapes"))
 			}
